@@ -901,6 +901,24 @@ func (e *Eng) callIsEffectFree(x *ast.CallExpr, a *assignedSet) bool {
 					case strings.HasPrefix(it, "elems(") || strings.HasPrefix(it, "fields(") || strings.HasPrefix(it, "pointee("):
 						return false
 					default:
+						if i := strings.Index(it, "."); i > 0 {
+							// Type.field: the whole field family
+							if tn, ok := fi.Pkg.Types.Scope().Lookup(it[:i]).(*types.TypeName); ok {
+								if s, ok := tn.Type().Underlying().(*types.Struct); ok {
+									found := false
+									for j := 0; j < s.NumFields(); j++ {
+										if s.Field(j).Name() == it[i+1:] {
+											a.fields[s.Field(j)] = tn.Type()
+											found = true
+										}
+									}
+									if found {
+										continue
+									}
+								}
+							}
+							return false
+						}
 						if gv, ok := fi.Pkg.Types.Scope().Lookup(it).(*types.Var); ok {
 							switch gv.Type().Underlying().(type) {
 							case *types.Array:
@@ -925,7 +943,50 @@ func (e *Eng) callIsEffectFree(x *ast.CallExpr, a *assignedSet) bool {
 		return false
 	}
 	if con := e.u.cs.Externs[name]; con != nil {
-		return con.Effect != "havoc" && len(con.Writes) == 0
+		if con.Effect == "havoc" {
+			return false
+		}
+		// parameters whose pointee is overwritten: the argument must be a plain
+		// variable (or its address) for the write to be tracked precisely
+		all := x.Args
+		if sel, ok := fun.(*ast.SelectorExpr); ok {
+			if _, isSel := e.info.Selections[sel]; isSel {
+				all = append([]ast.Expr{sel.X}, x.Args...)
+			}
+		}
+		for _, w := range con.Writes {
+			idx := -1
+			for i, p := range con.Params {
+				if p == w {
+					idx = i
+				}
+			}
+			if idx < 0 || idx >= len(all) {
+				return false
+			}
+			arg := ast.Unparen(all[idx])
+			if u, ok := arg.(*ast.UnaryExpr); ok && u.Op == token.AND {
+				arg = ast.Unparen(u.X)
+			}
+			if sl, ok := arg.(*ast.SliceExpr); ok {
+				arg = ast.Unparen(sl.X)
+			}
+			id, ok := arg.(*ast.Ident)
+			if !ok {
+				return false
+			}
+			o := e.info.ObjectOf(id)
+			if o == nil {
+				return false
+			}
+			switch o.Type().Underlying().(type) {
+			case *types.Slice, *types.Array:
+				a.rows[o] = true
+			default:
+				a.vars[o] = true
+			}
+		}
+		return true
 	}
 	pkgPath := ""
 	if fn.Pkg() != nil {
